@@ -166,7 +166,13 @@ def steps_within(sr):
 
 
 def gen_movie(rng, tier, kind=None):
-    kind = kind or rng.choice(['complete', 'complete', 'complete', 'diagonal', 'dense', 'approach', 'twolost', 'noise', 'edge', 'vanish'])
+    kind = kind or rng.choice(['complete', 'complete', 'complete', 'diagonal', 'dense', 'approach', 'twolost', 'noise', 'edge', 'vanish', 'signed'])
+    # 'signed': a 'complete' layout rendered as a signed int16 movie with a negative background (dark-frame subtracted
+    # data) and a faint bump that is a local maximum above the percentile threshold but whose mass over the mask is
+    # negative; preprocess=False, minmass 0: the bump must not be reported (finite mass >= minmass)
+    signed = kind == 'signed'
+    if signed:
+        kind = 'complete'
     sr = rng.choice([3, 3.5, 4, 5, 5, 6])
     sep = rng.choice([7, 9, 9, 11])
     if kind == 'dense':
@@ -237,7 +243,9 @@ def gen_movie(rng, tier, kind=None):
         # relocation, not a defect.  With preprocessing the completeness movies therefore use minmass 0 and no
         # noise (noise features would be features: the blobs would no longer be well separated from everything);
         # without preprocessing low noise is added and cut by a minmass well below the blob mass.
-        if pre:
+        if signed:
+            pre, noise_kind, minmass = False, 'none', 0
+        elif pre:
             noise_kind, minmass = 'none', 0
         else:
             noise_kind = rng.choice(['none', 'none', 'low'])
@@ -329,6 +337,21 @@ def gen_movie(rng, tier, kind=None):
         frames.append(G.render(shape, blobs, G.noise_texture(rng, shape, noise_kind)))
     if minmass is None:
         minmass = int(0.4 * amp * 2 * math.pi * sig * sig * 0.6)
+    if signed:
+        kind = 'signed'
+        off = rng.choice([20, 30, 40])
+        # faint bump: far from every blob and from the border
+        far = [(y, x) for y in range(rad + 8, shape[0] - rad - 8, 3) for x in range(rad + 8, shape[1] - rad - 8, 3)
+               if all(tr[t] is None or (y - tr[t][0]) ** 2 + (x - tr[t][1]) ** 2 > (2 * sr + sep + 8) ** 2 for tr in tracks for t in range(nfr))]
+        bump = rng.choice(far) if far else None
+        out = []
+        for f in frames:
+            g = f.astype(np.int16) - off
+            if bump is not None:
+                yy, xx = np.mgrid[0:shape[0], 0:shape[1]]
+                g = g + np.floor(rng.choice([8, 12, 15]) * np.exp(-((yy - bump[0]) ** 2 + (xx - bump[1]) ** 2) / (2.0 * 1.5 ** 2))).astype(np.int16)
+            out.append(g)
+        frames = out
     return dict(kind=kind, frames=frames, tracks=tracks, sr=sr, sep=sep, dia=dia, rad=rad, memory=mem, preprocess=pre,
                 minmass=minmass, pw=pw, wseed=rng.randint(0, 2 ** 30), noise=noise_kind)
 
@@ -404,14 +427,14 @@ def movie_term(c, rows, initial):
 
 def movie_json(c, rows, initial):
     wh = {str(t): [list(p) for p in v['detected'] if p not in set(v['given'])] for t, v in initial.items() if t >= 1}
-    return dict(kind='movie', movie_kind=c['kind'], frames=[f.tolist() for f in c['frames']], search_range=c['sr'], separation=c['sep'],
+    return dict(kind='movie', movie_kind=c['kind'], dtype=str(c['frames'][0].dtype), frames=[f.tolist() for f in c['frames']], search_range=c['sr'], separation=c['sep'],
                 diameter=c['dia'], memory=c['memory'], preprocess=c['preprocess'], minmass=c['minmass'], withhold=wh, noise=c.get('noise', 'none'),
                 tracks=[[None if p is None else list(p) for p in tr] for tr in c['tracks']],
                 impl_output={str(t): [[list(r['pos']), r['label'], None if r['mass'] != r['mass'] else r['mass']] for r in rs] for t, rs in rows.items()})
 
 
 def movie_from_json(j):
-    return dict(kind=j['movie_kind'], frames=[np.array(f, dtype=np.uint8) for f in j['frames']], sr=j['search_range'], sep=j['separation'],
+    return dict(kind=j['movie_kind'], frames=[np.array(f, dtype=j.get('dtype', 'uint8')) for f in j['frames']], sr=j['search_range'], sep=j['separation'],
                 dia=j['diameter'], rad=int(j['separation'] // 2) if j['diameter'] is None else j['diameter'] // 2, memory=j['memory'],
                 preprocess=j['preprocess'], minmass=j['minmass'], pw=0.0, wseed=0, withhold=j['withhold'], noise=j.get('noise', 'none'),
                 tracks=[[None if p is None else tuple(p) for p in tr] for tr in j['tracks']])
